@@ -129,7 +129,7 @@ func buildScenarios() {
 					scenarios = append(scenarios, scenario{base + "-dev2", sel, batch, mr, sa, 2, false})
 					// the smallest Stateless configuration is explored with 3 deviations in the quick tier too
 					scenarios = append(scenarios, scenario{base + "-dev3", sel, batch, mr, sa, 3, !(sel == relaycore.Stateless && !batch && mr == 2 && sa == 1)})
-					if sel != relaycore.Stateless || batch || mr == 2 {
+					if sel != relaycore.Stateless || batch {
 						scenarios = append(scenarios, scenario{base + "-dev4", sel, batch, mr, sa, 4, true})
 					}
 				}
@@ -827,7 +827,7 @@ func run(r *ev.Run) {
 	r.Set("engine", "events")
 	devs := "2 (3 for Stateless, single message, MaxRetries 2, SendRelayAttempts 1)"
 	if ev.Tier() == "thorough" {
-		devs = "2, 3 and (all but Stateless with a single message and MaxRetries 3) 4"
+		devs = "2, 3 and (all but Stateless with a single message) 4"
 	}
 	r.Set("bound", "real UnifiedRelayStateMachine + real relaypolicy.Policy with the consumer configuration; selection in {Stateless, Stateful (2 sessions per send), CrossValidation (2 participants, threshold 2)} x {single, batch message (DisableBatchRequestRetry default)} x MaxRetries in {2,3} x SendRelayAttempts in {1,2}; "+
 		"every order of the enabled events UpdateBatch(nil | pairing-list-empty | error), result(success | node-error | node-error-nonretryable | protocol-error | epoch-mismatch) for the oldest in-flight relay, tick, rc-timer, processing-timeout; "+
